@@ -9,7 +9,7 @@ import pipecorr
 
 META = {
     'theorem_files': ['Props/C06.v'],
-    'theorems': ['C06_997_envelope_recount', 'C06_999_envelope_recount', 'C06_997_needs_clean_gs06', 'C06_997_short_isa_when_isa15_empty'],
+    'theorems': ['C06_997_envelope_recount', 'C06_999_envelope_recount', 'C06_997_needs_clean_gs06', 'C06_997_short_isa_when_isa15_empty', 'C06_recount_reader_silent', 'C06_recount_is_consistent_document', 'C06_997_rereads', 'C06_999_rereads', 'C06_reread_hypotheses_hold_somewhere', 'C06_997_empty_gs06_draws_error'],
     'trusted_base': [
         'Coq 8.16.1 kernel; no native_compute',
         'Model/Ack997.v, Ack999.v, Errh.v, Writer.v, Pipeline.v: hand transcriptions — tied by this run (whole documents, model text '
